@@ -134,6 +134,14 @@ M = [
  ("c09_feed_returns_len", "C09", "returns-consumed", "crates/jxl-oxide/src/lib.rs",
   "                    self.inner.aux_boxes.handle_event(aux_box_event)?;\n                }\n            }\n        }\n        Ok(self.reader.previous_consumed_bytes())",
   "                    self.inner.aux_boxes.handle_event(aux_box_event)?;\n                }\n            }\n        }\n        Ok(buf.len())"),
+ ("c04_hybrid_msb_width", "C04", "R-HYBRID-CONFIG", "crates/jxl-coding/src/lib.rs",
+  "            let msb_bits = add_log2_ceil(split_exponent) as usize;", "            let msb_bits = add_log2_ceil(log_alphabet_size) as usize;"),
+ ("c10_nomoreaux_jxlp_last", "C10", "R-NOMOREAUX", "crates/jxl-bitstream/src/container/parse.rs",
+  "                    let bytes_left = header.box_size().map(|x| x as usize - 4);\n                    *state = DetectState::InCodestream {\n                        kind: BitstreamKind::Container,\n                        bytes_left,\n                        pending_no_more_aux_box: bytes_left.is_none(),",
+  "                    let bytes_left = header.box_size().map(|x| x as usize - 4);\n                    *state = DetectState::InCodestream {\n                        kind: BitstreamKind::Container,\n                        bytes_left,\n                        pending_no_more_aux_box: is_last,"),
+ ("c17_scaninfo_shared_index", "C17", "R-JBR-SCANINFO", "crates/jxl-jbr/src/lib.rs",
+  "        let num_extra_zero_runs = bitstream.read_u32(0, 1 + U(2), 4 + U(4), 20 + U(16))?;\n        let mut last_block_idx: Option<u32> = None;\n",
+  "        let num_extra_zero_runs = bitstream.read_u32(0, 1 + U(2), 4 + U(4), 20 + U(16))?;\n"),
  ("c18_interp_order1_sign", "C18", "script:predict width 1 order 1", "crates/jxl-color/src/icc/decode.rs",
   "                        1 => Wrapping(2) * prev[0] - prev[1],", "                        1 => Wrapping(2) * prev[0] + prev[1],"),
  ("c18_interp_xyz_triple_offset", "C18", "script:tag list", "crates/jxl-color/src/icc/decode.rs",
